@@ -75,8 +75,14 @@ pub async fn handle_udp_over_tcp(stream: Arc<Stream>) -> Result<()> {
 
     drop(reader_guard);
 
-    // Step 2: Create UDP socket (bind to any available port)
-    let udp_socket = UdpSocket::bind("0.0.0.0:0").await.map_err(|e| {
+    // Step 2: Create UDP socket (bind to any available port, in the address family of the target:
+    // an IPv4 socket cannot send to an IPv6 target)
+    let bind_addr = if target_addr.is_ipv6() {
+        "[::]:0"
+    } else {
+        "0.0.0.0:0"
+    };
+    let udp_socket = UdpSocket::bind(bind_addr).await.map_err(|e| {
         tracing::error!("[UDP] Failed to create UDP socket: {}", e);
         AnyTlsError::Io(e)
     })?;
